@@ -4,17 +4,19 @@ import HcipyVerif.Model.Detector
 /-! Line-protocol front end of the C17 model (detectors).
 
 ```
-new noiseless|old <s> <dims>            one detector per `new`; dims = coarse shape, slowest first
-new noisy <s> <dims> <dark> <flat|->    NoisyDetector, photon noise off, read noise 0
+new noiseless <s> <dims>                one detector per `new`; dims = coarse shape, slowest first
+new noisy <s> <dims> <dark> <flat|->    NoisyDetector, photon noise off, read noise 0 (`pInit`; `0 -` = `allOff`)
 set flat|dark|sigma <list>              assign a parameter (one value per pixel); set photon 0|1
 int <power-list> <dt> <weight>          -> ok | err value
-read                                    -> ok <image-list> | err attribute
+read                                    -> ok <image-list>            (noiseless: `step`)
+                                           ok <image-list> off|on     (noisy: `pStep`; the flag is `PSt.off` before the read-out)
+                                           ok random off|on           (noisy with photon or read noise on)
 ```
 -/
 namespace HcipyVerif.Driver.C17
 open HcipyVerif.Proto HcipyVerif.Detector HcipyVerif.Binning
 
-inductive Kind where | noiseless | old | noisy
+inductive Kind where | noiseless | noisy
 deriving BEq
 
 structure St where
@@ -33,12 +35,12 @@ def showObs : Obs Rat → String
 def apply (st : St) (op : Op Rat) : St × String :=
   match st.kind with
   | .noiseless => let r := Detector.step st.geom st.st op; ({ st with st := r.1 }, showObs r.2)
-  | .old => let r := Detector.stepOld st.geom st.st op; ({ st with st := r.1 }, showObs r.2)
   | .noisy =>
-    let pop : POp Rat := match op with
-      | .integrate p dt w => .integrate p dt w
-      | .readOut => .readOut
-    let r := Detector.pStep st.geom st.pst pop; ({ st with pst := r.1 }, showObs r.2)
+    let r := Detector.pStep st.geom st.pst (lift op)
+    let flag := match op with
+      | .readOut => if st.pst.off st.geom then " off" else " on"
+      | _ => ""
+    ({ st with pst := r.1 }, showObs r.2 ++ flag)
 
 def step (st : St) : List String → St × String
   | ["reset"] => ({}, "ok")
@@ -48,7 +50,6 @@ def step (st : St) : List String → St × String
       if s = 0 then (st, "bad-op") else
       match kind with
       | "noiseless" => ({ kind := .noiseless, geom := { dims := dims, s := s } }, "ok")
-      | "old" => ({ kind := .old, geom := { dims := dims, s := s } }, "ok")
       | _ => (st, "bad-op")
     | _, _ => (st, "bad-op")
   | ["new", "noisy", s, dims, dark, flat] =>
@@ -60,8 +61,8 @@ def step (st : St) : List String → St × String
       match flat? with
       | some fl =>
         if fl.length ≠ n then (st, "bad-op") else
-        ({ kind := .noisy, geom := { dims := dims, s := s },
-           pst := { flat := fl, dark := List.replicate n dark, sigma := List.replicate n 0 } }, "ok")
+        let g : Geom := { dims := dims, s := s }
+        ({ kind := .noisy, geom := g, pst := pInit g dark fl }, "ok")
       | none => (st, "bad-op")
     | _, _, _ => (st, "bad-op")
   | ["int", p, dt, w] =>
